@@ -610,9 +610,13 @@ func (s *SMInst) recoverFrom(r io.Reader) error {
 		s.disk.mu.Unlock()
 	}
 	s.dmu.Unlock()
+	// the snapshot replaces the whole state: later updates continue after its
+	// index (an imported snapshot may be older than what an on-disk state
+	// machine had on its disk)
 	s.mu.Lock()
-	if d.Applied > s.lastIdx {
-		s.lastIdx = d.Applied
+	s.lastIdx = d.Applied
+	if s.openIdx > d.Applied {
+		s.openIdx = d.Applied
 	}
 	s.mu.Unlock()
 	return nil
